@@ -16,6 +16,7 @@ pub use src::*;
 pub mod env;
 pub mod vm;
 
+pub mod c20_side;
 pub mod c23_header;
 pub mod c25_sanity;
 pub mod c32_descriptor;
@@ -25,6 +26,7 @@ pub mod c40_groupby;
 /// Table of all bodies for the native replayer.
 pub fn replay_table() -> Vec<(&'static str, fn(&mut Src))> {
     let mut v: Vec<(&'static str, fn(&mut Src))> = Vec::new();
+    v.extend_from_slice(c20_side::TABLE);
     v.extend_from_slice(c23_header::TABLE);
     v.extend_from_slice(c25_sanity::TABLE);
     v.extend_from_slice(c32_descriptor::TABLE);
